@@ -44,7 +44,7 @@ import (
 )
 
 func init() {
-	vlib.Register("C14", "exploration", runC14)
+	vlib.Register("C14", "model_checking", runC14)
 	vlib.Workers["c14"] = c14Worker
 }
 
